@@ -1,7 +1,180 @@
 import XpmVerif.Model.Sched
 import XpmVerif.Generated.SchedFlags
+import XpmVerif.Proofs.SchedFail
+/-! C07: "Failures are contained: dependents are cancelled, others still run."
+
+    All theorems are about every state of the scheduler model `Model/Sched.lean` reachable by ANY list of
+    well-formed events (`ReachableOK fl totals s`, `ReachesOK fl s s'`; an event is well-formed, `EvOK`, when a
+    submission names earlier submissions and existing tokens with a positive count — this is needed: it
+    excludes a job that depends on itself), for every flag record with `fl.readyGuarded = true` (the other
+    two repairs are not needed here).  One invariant (`Proofs/SchedFail.lean`, `Inv2`, on top of `Inv` of
+    C04) preserved by every callback and every event. -/
 namespace XpmVerif.C07
-open XpmVerif.Sched
+open XpmVerif.Sched XpmVerif.SchedDeps XpmVerif.SchedFail
+
 /-- obligation on the current source: the three scheduler repairs are present. -/
 theorem scheduler_flags : Gen.schedFlags = { readyGuarded := true, resubmitRegisters := true, abortRechecks := true } := by decide
+
+/-- `error_stable`: a job in state `error` stays in state `error` in every later reachable state. -/
+theorem error_stable {fl : Flags} (hfl : fl.readyGuarded = true) {totals : List Nat} {s s' : St}
+    (hr : ReachableOK fl totals s) (hr' : ReachesOK fl s s') (o : Nat) (he : (s.jobs o).state = .error) :
+    (s'.jobs o).state = .error :=
+  (all_of_reachableOK hfl hr).error_stable hfl hr' o he
+
+/-- `error_sources` (1): a job is in state `error` only if one of its dependencies failed (`failedDep`) or
+    it was launched and its process exited with a non-zero code. -/
+theorem error_sources {fl : Flags} (hfl : fl.readyGuarded = true) {totals : List Nat} {s : St}
+    (hr : ReachableOK fl totals s) (j : Nat) (he : (s.jobs j).state = .error) :
+    (s.jobs j).failedDep = true ∨ (0 < (s.jobs j).launches ∧ (s.jobs j).code ≠ 0) :=
+  ((all_of_reachableOK hfl hr).inv2.core.g.floc j).f4 he
+
+/-- `error_sources` (2): `failedDep` only if some job dependency has its origin in state `error`. -/
+theorem failedDep_source {fl : Flags} (hfl : fl.readyGuarded = true) {totals : List Nat} {s : St}
+    (hr : ReachableOK fl totals s) (j : Nat) (hf : (s.jobs j).failedDep = true) :
+    ∃ d ∈ (s.jobs j).deps, ∃ o, d.origin = .job o ∧ (s.jobs o).state = .error := by
+  have h := all_of_reachableOK hfl hr
+  obtain ⟨i, hi, -, hc⟩ := (h.inv2.core.g.floc j).f7 hf
+  obtain ⟨o, ho, he⟩ := h.inv2.core.g.g1 j i hi hc
+  obtain ⟨d, hd, e1, -⟩ := mem_of_lt hi
+  exact ⟨d, hd, o, e1.trans ho, he⟩
+
+/-- "others still run" (no collateral cancellation): a job none of whose job dependencies is in state `error`
+    and whose own exit code is 0 is not in state `error` — in every reachable state. -/
+theorem no_collateral_error {fl : Flags} (hfl : fl.readyGuarded = true) {totals : List Nat} {s : St}
+    (hr : ReachableOK fl totals s) (j : Nat)
+    (hdeps : ∀ d ∈ (s.jobs j).deps, ∀ o, d.origin = .job o → (s.jobs o).state ≠ .error)
+    (hcode : (s.jobs j).code = 0) : (s.jobs j).state ≠ .error := by
+  intro he
+  rcases error_sources hfl hr j he with hf | ⟨-, hc⟩
+  · obtain ⟨d, hd, o, ho, heo⟩ := failedDep_source hfl hr j hf
+    exact hdeps d hd o ho heo
+  · exact hc hcode
+
+/-- `dependent_of_failed_never_launched`: if a job dependency of `j` has its origin in state `error`, then `j`
+    has never been launched (`launches = 0`) and is never launched in any later reachable state. -/
+theorem dependent_of_failed_never_launched {fl : Flags} (hfl : fl.readyGuarded = true) {totals : List Nat}
+    {s s' : St} (hr : ReachableOK fl totals s) (hr' : ReachesOK fl s s') (j : Nat) (d : Dep)
+    (hd : d ∈ (s.jobs j).deps) (o : Nat) (ho : d.origin = .job o) (he : (s.jobs o).state = .error) :
+    (s.jobs j).launches = 0 ∧ (s'.jobs j).launches = 0 := by
+  have h := all_of_reachableOK hfl hr
+  obtain ⟨h', t⟩ := h.reaches fl hfl hr'
+  obtain ⟨-, d', hd', e'⟩ := t.dep h j d hd
+  exact ⟨h.failed_dep_not_launched j d hd o ho he,
+    h'.failed_dep_not_launched j d' hd' o (e'.trans ho) (h.error_stable hfl hr' o he)⟩
+
+/-- transitive version: a job that depends on a failed job through a chain of job dependencies (no
+    intermediate job having a done marker, `Blocked`) has never been launched and never is. -/
+theorem transitive_dependent_never_launched {fl : Flags} (hfl : fl.readyGuarded = true) {totals : List Nat}
+    {s s' : St} (hr : ReachableOK fl totals s) (hr' : ReachesOK fl s s') (j : Nat) (hb : Blocked s j) :
+    (s.jobs j).launches = 0 ∧ (s'.jobs j).launches = 0 ∧ Blocked s' j := by
+  have h := all_of_reachableOK hfl hr
+  have hb' := hb.persist hfl h hr'
+  exact ⟨h.blocked_not_launched hb, (h.reaches fl hfl hr').1.blocked_not_launched hb', hb'⟩
+
+/-- `dependent_of_failed_ends_in_error`: let `o` be failed and finished (`state = error`, `pc = finished _`:
+    its `doneHandler` segment, which queues a `check` for every registered dependent, has run).  For every
+    job `j` whose first segment has run (`pc ∉ {none, created}`; that segment registers `j` and checks each
+    dependency itself) and every position `i` of a dependency on `o`: either `check j i` is still queued, or
+    the dependency is recorded as failed and `j` is in state `error` with `failedDep` — unless `j` is `done`
+    (done marker of an earlier run). -/
+theorem dependent_of_failed_ends_in_error {fl : Flags} (hfl : fl.readyGuarded = true) {totals : List Nat} {s : St}
+    (hr : ReachableOK fl totals s) (j o i : Nat) (hi : i < (s.jobs j).deps.length)
+    (hpc : (s.jobs j).pc ≠ .none ∧ (s.jobs j).pc ≠ .created)
+    (ho : (s.jobs j).deps[i].origin = .job o) (he : (s.jobs o).state = .error) (hf : ∃ r, (s.jobs o).pc = .finished r) :
+    Cb.check j i ∈ s.ready ∨
+    ((s.jobs j).deps[i].cur = .fail ∧
+      ((s.jobs j).state = .done ∨ ((s.jobs j).state = .error ∧ (s.jobs j).failedDep = true))) := by
+  have h := all_of_reachableOK hfl hr
+  have ho' : orgAt (s.jobs j) i = .job o := by rw [orgAt, getD_eq hi]; exact ho
+  have hreg := h.inv2.core.g.gR j hpc i hi o ho'
+  rcases h.inv2.gp o (j, i) hreg he hf with hc | hc
+  · right
+    refine ⟨by rw [curAt, getD_eq hi] at hc; exact hc, (h.inv2.core.g.floc j).f6 ⟨i, hi, hc⟩⟩
+  · exact Or.inl hc
+
+/-- the same when nothing is queued: every started dependent of a failed and finished job is in state
+    `error` with `failedDep`, or `done`. -/
+theorem dependent_of_failed_ends_in_error_quiescent {fl : Flags} (hfl : fl.readyGuarded = true) {totals : List Nat}
+    {s : St} (hr : ReachableOK fl totals s) (hq : s.ready = []) (j o i : Nat) (hi : i < (s.jobs j).deps.length)
+    (hpc : (s.jobs j).pc ≠ .none ∧ (s.jobs j).pc ≠ .created)
+    (ho : (s.jobs j).deps[i].origin = .job o) (he : (s.jobs o).state = .error) (hf : ∃ r, (s.jobs o).pc = .finished r) :
+    (s.jobs j).state = .done ∨ ((s.jobs j).state = .error ∧ (s.jobs j).failedDep = true) := by
+  rcases dependent_of_failed_ends_in_error hfl hr j o i hi hpc ho he hf with h | h
+  · rw [hq] at h; simp at h
+  · exact h.2
+
+/-- `failed` (`failedJobs`) contains exactly the identifiers of the jobs that went through `St.finish`
+    (`pc = doneHandler` or `finished _`) in a state other than `done`, i.e. in state `error`. -/
+theorem failed_exact {fl : Flags} (hfl : fl.readyGuarded = true) {totals : List Nat} {s : St}
+    (hr : ReachableOK fl totals s) (x : Nat) :
+    x ∈ s.failed ↔ ∃ j, (s.jobs j).ident = x ∧ (s.jobs j).state = .error ∧
+      ((s.jobs j).pc = .doneHandler ∨ ∃ r, (s.jobs j).pc = .finished r) :=
+  (all_of_reachableOK hfl hr).inv2.core.g.gF x
+
+/-- `wait_reports_failure` (1): the callback in which the waiter of `experiment.wait()` completes
+    (`returned` or `raised`) finds `unfinished = 0` and raises iff `failed` is not empty.  (Holds for any
+    state; the completion is one `St.step`.) -/
+theorem wait_reports_failure (fl : Flags) (s : St) (h1 : s.waiter ≠ .returned) (h2 : s.waiter ≠ .raised)
+    (h3 : (s.step fl).waiter = .returned ∨ (s.step fl).waiter = .raised) :
+    s.unfinished = 0 ∧ ((s.step fl).waiter = .raised ↔ (s.step fl).failed ≠ []) := by
+  rcases step_waiter fl s with ⟨-, hw⟩ | ⟨hf, hw⟩
+  · rcases hw with hw | ⟨-, hw⟩
+    · rw [hw] at h3; rcases h3 with h3 | h3
+      · exact absurd h3 h1
+      · exact absurd h3 h2
+    · rw [hw] at h3; simp at h3
+  · rw [hf, hw]; rw [hw] at h3
+    split at h3
+    · rename_i hu
+      refine ⟨hu, ?_⟩
+      simp only [hu, if_true]
+      split
+      · rename_i he
+        have : s.failed = [] := List.isEmpty_iff.mp he
+        simp [this]
+      · rename_i he
+        have : s.failed ≠ [] := fun e => he (by rw [e]; rfl)
+        simp [this]
+    · simp at h3
+
+/-- `wait_reports_failure` (2): in every reachable state a raised waiter has a non-empty `failed`, i.e.
+    (`failed_exact`) some job went through `finish` in state `error`. -/
+theorem wait_raised_has_failure {fl : Flags} (hfl : fl.readyGuarded = true) {totals : List Nat} {s : St}
+    (hr : ReachableOK fl totals s) (hw : s.waiter = .raised) :
+    ∃ j, (s.jobs j).state = .error ∧ ((s.jobs j).pc = .doneHandler ∨ ∃ r, (s.jobs j).pc = .finished r) := by
+  have h := all_of_reachableOK hfl hr
+  obtain ⟨x, hx⟩ := List.exists_mem_of_ne_nil _ (h.w hw)
+  obtain ⟨j, -, hj⟩ := (failed_exact hfl hr x).mp hx
+  exact ⟨j, hj⟩
+
+/-- `wait_reports_failure` (3), for reachable states: the waiter completes with success (`returned`) in a
+    callback only if no job has gone through `finish` in state `error`. -/
+theorem wait_returned_no_failure {fl : Flags} (hfl : fl.readyGuarded = true) {totals : List Nat} {s : St}
+    (hr : ReachableOK fl totals s) (h1 : s.waiter ≠ .returned) (h2 : s.waiter ≠ .raised)
+    (h3 : (s.apply fl .step).waiter = .returned) (j : Nat)
+    (hp : ((s.apply fl .step).jobs j).pc = .doneHandler ∨ ∃ r, ((s.apply fl .step).jobs j).pc = .finished r) :
+    ((s.apply fl .step).jobs j).state ≠ .error := by
+  intro he
+  have hr' : ReachableOK fl totals (s.apply fl .step) := .step .step hr trivial
+  have := (wait_reports_failure fl s h1 h2 (Or.inl h3)).2
+  have hne : (s.step fl).failed ≠ [] :=
+    List.ne_nil_of_mem ((failed_exact hfl hr' _).mpr ⟨j, rfl, he, hp⟩)
+  have h3' : (s.step fl).waiter = .returned := h3
+  rw [h3'] at this
+  exact absurd (this.mpr hne) (by simp)
+
+/-! ### the hypotheses are satisfiable: job 0 fails, job 1 depends on it, job 2 is independent -/
+
+example : ReachableOK flOK [] failS := reachableOK_of_allOKb flOK [] failEvs (by decide)
+example : Gen.schedFlags = flOK ∧ Gen.schedFlags.readyGuarded = true := by decide
+/-- job 0: launched, exit code 1, `error`; job 1: never launched, `error` with `failedDep`; job 2: `done`. -/
+example : (failS.jobs 0).state = .error ∧ (failS.jobs 0).launches = 1 ∧ (failS.jobs 0).code = 1 ∧
+    (failS.jobs 1).state = .error ∧ (failS.jobs 1).failedDep = true ∧ (failS.jobs 1).launches = 0 ∧
+    (failS.jobs 1).deps = [{ origin := .job 0, cur := .fail }] ∧
+    (failS.jobs 2).state = .done ∧ (failS.jobs 2).launches = 1 ∧ failS.failed = [0, 1] := by decide
+/-- hypotheses of `dependent_of_failed_ends_in_error` (job 0 failed and finished, job 1 started). -/
+example : (failS.jobs 0).pc = .finished .error ∧ (failS.jobs 1).pc = .finished .error := by decide
+/-- hypotheses of `wait_reports_failure`: the next callback completes the waiter, which raises. -/
+example : failS.waiter = .notified ∧ (failS.step flOK).waiter = .raised ∧ (failS.step flOK).failed = [0, 1] := by decide
+
 end XpmVerif.C07
